@@ -53,15 +53,20 @@ class CoreMixin:
                 break
             if path is None:
                 path = set()
+            if v.id in path or (_guard is not None and v.id in _guard):
+                break
             path.add(n.id)
             n = v
             seen += 1
             if seen > 10000:
                 raise RuntimeError("version chain loop")
         if n.op == "Phi":
-            g = _guard
+            g = set(_guard) if _guard else set()
             if path:
-                g = (set(_guard) | path) if _guard else path
+                g |= path
+            if n.id in g or len(g) > 400:
+                return n
+            g.add(n.id)
             a, b = self.res(n.args[1], st, g), self.res(n.args[2], st, g)
             if a is not n.args[1] or b is not n.args[2]:
                 key = (n.id, a.id, b.id)
@@ -433,7 +438,12 @@ class CoreMixin:
                 return self.unknown(f"cyclic-global:{mod.name}.{name}", site)
             return v
         self._globals[key] = None
-        v = self._global_value(mod, name, site)
+        saved = self._cur_fn
+        self._cur_fn = None      # module-level evaluation: nodes belong to no function
+        try:
+            v = self._global_value(mod, name, site)
+        finally:
+            self._cur_fn = saved
         self._globals[key] = v
         return v
 
@@ -519,13 +529,13 @@ class CoreMixin:
         return None
 
     # ------------------------------------------------------------------ attributes
-    def load_attr(self, obj: Node, name: str, st: St, fr: Frame, site) -> Node:
+    def load_attr(self, obj: Node, name: str, st: St, fr: Frame, site, _depth=0) -> Node:
         op = obj.op
-        if op == "Phi":
+        if op == "Phi" and _depth < 12:
             a, b = obj.args[1], obj.args[2]
             if any(x.op in ("Obj", "Module", "Class", "Phi", "Closure", "Dict", "Cfg") for x in (a, b)):
-                va = self.load_attr(a, name, st, fr, site) if a.op != "Undefined" else a
-                vb = self.load_attr(b, name, st, fr, site) if b.op != "Undefined" else b
+                va = self.load_attr(a, name, st, fr, site, _depth + 1) if a.op != "Undefined" else a
+                vb = self.load_attr(b, name, st, fr, site, _depth + 1) if b.op != "Undefined" else b
                 return self.phi(obj.args[0], va, vb)
         if op == "Module":
             sub = f"{obj.attr}.{name}"
